@@ -1308,7 +1308,13 @@ def main(argv=None):
     if traces:
         import c02_trace
         c02_trace.compare(ck, traces)
-    ck.finish(rule='seeded programs of 2-4 connections (one per thread, own TransactionManager; reads, '
+    ck.finish(rule='storage kinds file / file+blob_dir / map / hex-wrapped / BlobStorage-wrapped / DemoStorage '
+                   'stacks / native MVCCMappingStorage, built directly, from a storage config or a database '
+                   'config with pool_size, cache_size options; steps also include reads through get / '
+                   'oldstate / exportFile / readCurrent, a second connection on the same manager, new '
+                   'objects, savepoints, failures in begin / commit / vote phase, cacheMinimize, resetCaches, '
+                   'invalidateCache (adapter and storage side), undo, undoMultiple, deleteObject, idling; '
+                   'seeded programs of 2-4 connections (one per thread, own TransactionManager; reads, '
                    'group writes with a per-transaction stamp, commit, failed vote, abort, begin, '
                    'close+reopen from the pool, optional packer on FileStorage) over FileStorage and '
                    'MappingStorage under seeded schedules at lock-operation and raw-file-operation '
@@ -1318,7 +1324,12 @@ def main(argv=None):
                            '(DESIGN 6.2: CPython code without lock/IO is atomic)',
                            'the abstract storage of the model answers loadBefore from the committed '
                            'log (that FileStorage/MappingStorage do is C04; probed here by the oracle)',
-                           'scripted clock: tids strictly increase in commit-lock order'])
+                           'scripted clock (advancing, stalled or regressing): tids strictly increase in '
+                           'commit-lock order',
+                           'ORACLE ONLY (no model trace): the native MVCCMappingStorage, DemoStorage over a '
+                           'pre-populated base, databases built by ZODB.config.databaseFromString, cases with '
+                           'a second database, with pool_size 1 or 2 (connections get discarded) and with a '
+                           'storage-level deleteObject; all other cases are also replayed on the Lean model'])
 
 
 if __name__ == '__main__':
